@@ -90,11 +90,13 @@ PROPS["C11"] = dict(
     design_ref="DESIGN.md §5 C11",
 )
 PROPS["C12"] = dict(
+    facts=True,
     title="Malformed input yields an error, never a panic, exit or hang",
     modules=["Kust.Props.C12", "Kust.Lemmas.Res"],
     theorems=["Kust.C12.pathGet_no_panic", "Kust.C12.lookup_no_panic", "Kust.C12.fieldSetter_no_panic", "Kust.C12.fieldClearer_no_panic",
               "Kust.C12.elementIndexer_ne_panic", "Kust.C12.Witness.elementIndexerOld_panics", "Kust.Res.prevIds_no_panic",
-              "Kust.Res.layers_no_panic", "Kust.Res.Witness.nameless_prevIds_panics"],
+              "Kust.Res.layers_no_panic", "Kust.Res.Witness.nameless_prevIds_panics", "Kust.C12.panic_sites_covered",
+              "Kust.C12.panic_sites_all_reviewed"],
     components=["fns.lookup", "fns.setelem", "res.layers"],
     oracle=True,
     n_corr={"quick": 2000, "thorough": 20000}, n_oracle={"quick": 1500, "thorough": 20000},
@@ -221,4 +223,43 @@ PROPS["C10"] = dict(
     level_note=COMMON_NOTE + "Go regexp (user-supplied selector patterns) is not modelled: anchoring is checked by the oracle only.",
     assumptions=["fixed-shape image regexp hand-modelled as a string function (validated by correspondence)"],
     design_ref="DESIGN.md §5 C10",
+)
+
+PROPS["C01"] = dict(
+    title="A build is a deterministic, history-independent function of its inputs",
+    facts=True,
+    modules=["Kust.Props.C01"],
+    theorems=["Kust.C01.C01_history", "Kust.C01.observeAll_default", "Kust.C01.history_reach", "Kust.C01.set_nondefault_fresh",
+              "Kust.C01.Witness.old_custom_schema_leaks", "Kust.C01.sortStrs_perm", "Kust.C01.insertStr_comm",
+              "Kust.C01.C01_map_sites_covered", "Kust.C01.map_sites_all_reviewed"],
+    components=["openapi.seq"],
+    oracle=True,
+    n_corr={"quick": 400, "thorough": 5000}, n_oracle={"quick": 120, "thorough": 1500},
+    technique="Lean 4 proof (history independence of the OpenAPI schema state machine for every history; permutation invariance of the sorted-key iteration; decide over the SSA-regenerated list of map-range sites) + Go/Lean correspondence of the schema state on op sequences + repetition/history/fresh-process oracle on whole builds",
+    level_text="Theorem C01_history: for ANY sequence of earlier builds (any selections incl. custom schemas and unknown versions, any schema operations) a build observes "
+               "exactly what it observes in a fresh process — for the repaired SetSchema; the old code is refuted by a kernel-evaluated witness. Sorted-key iteration is "
+               "permutation-invariant; the regenerated list of range-over-map sites in the build closure equals the reviewed list. PARTIAL: process-level repetition "
+               "and Go's map randomisation are covered by these theorems plus the reviewed site list and a bounded repetition search, not by a semantics of the Go runtime.",
+    level_note=COMMON_NOTE + "The schema is abstracted to its source (built-in / custom n); RTA over-approximates interface calls; the per-site order-independence arguments are review tags, only the sorted-key pattern is proved.",
+    assumptions=["exactly one built-in OpenAPI version (as in the tree)", "Go map iteration is some permutation"],
+    design_ref="DESIGN.md §5 C01",
+)
+PROPS["C16"] = dict(
+    title="Independent builds may run concurrently without interfering",
+    facts=True, race=True,
+    modules=["Kust.Props.C16"],
+    theorems=["Kust.Sync.lockset_drf", "Kust.Sync.step_inv", "Kust.C16.globals_reviewed", "Kust.C16.access_table_disciplined",
+              "Kust.C16.schema_accesses_present", "Kust.C16.concurrent_builds_race_free", "Kust.C16.default_view_confluent"],
+    components=["openapi.seq"],
+    oracle=True,
+    n_corr={"quick": 300, "thorough": 3000}, n_oracle={"quick": 6, "thorough": 60},
+    technique="Lean 4 proof (lockset discipline implies no simultaneous conflicting accesses in any interleaving; decide over the SSA-regenerated access table of mutable package-level state) + -race search with 2-16 concurrent builds and concurrent-vs-sequential comparison",
+    level_text="PARTIAL by nature. Proved: in the operational lock model, any number of threads that access shared locations only while holding the location's lock never reach "
+               "a state with two simultaneous conflicting accesses; the regenerated access table shows every access to package-level state written outside init is made "
+               "under a lock (own or all callers'), which is that theorem's hypothesis for the current source; default-schema builds observe alike from any reachable "
+               "default state. Assumed: the Go memory model and sync package behave as modelled; the extractor's lock propagation is syntactic. The race detector run "
+               "on concurrently started builds is the search.",
+    level_note=COMMON_NOTE + "Pointer escapes of shared state (e.g. &globalSchema.schema handed out) are not tracked by the extractor; goroutine-local state of a Run is established by the race search, not proved.",
+    assumptions=["Go memory model + sync as in Kust.Sync", "builds use the built-in schema"],
+    design_ref="DESIGN.md §5 C16",
 )
